@@ -47,6 +47,11 @@ impl Watcher {
 	) -> Result<Box<dyn notify::Watcher + Send>, CriticalError> {
 		use notify::{Config, Watcher as _};
 
+		#[cfg(watchexec_verif)]
+		if crate::verif::watcher_factory_installed() {
+			return Ok(crate::verif::make_watcher(self, Box::new(f)));
+		}
+
 		match self {
 			Self::Native => {
 				notify::RecommendedWatcher::new(f, Config::default()).map(|w| Box::new(w) as _)
